@@ -88,8 +88,10 @@ QPow(a,k) == IF k = 0 THEN Q1 ELSE IF k = 1 THEN a
 RECURSIVE IPowCap(_,_)
 IPowCap(r,k) == IF k = 0 THEN 1 ELSE LET h == IPowCap(r, k-1) IN IF h > 40000 THEN h ELSE h * r
 \* exact integer k-th root of m >= 1, or 0 when m is not a perfect k-th power
+\* (r^k <= MAXM bounds the candidates: nothing but 1 is a perfect k-th power below MAXM for k >= 15)
+RMax(k) == IF k = 2 THEN 175 ELSE IF k = 3 THEN 32 ELSE IF k = 4 THEN 14 ELSE IF k <= 6 THEN 8 ELSE IF k <= 14 THEN 4 ELSE 1
 IRoot(m,k) == IF m = 1 THEN 1
-              ELSE IF \E r \in 2..175 : IPowCap(r,k) = m THEN CHOOSE r \in 2..175 : IPowCap(r,k) = m ELSE 0
+              ELSE IF \E r \in 2..RMax(k) : IPowCap(r,k) = m THEN CHOOSE r \in 2..RMax(k) : IPowCap(r,k) = m ELSE 0
 
 \* the real k-th root (k >= 1), sign kept for odd k.  Domain: k = 1 everything; k >= 2: a # 0; k even: a > 0
 QRoot(a,k) == IF k = 1 THEN a
